@@ -56,7 +56,7 @@ func c08NtLen(flags uint32, ti []byte) int {
 // c08Blank zeroes the LM / NT response bytes (random client challenge, timestamp) at the position the
 // fixed header size and the computed lengths determine — not at the position the descriptors claim.
 func c08Blank(msg []byte, at int, n int) []byte {
-	out := exact(msg)
+	out := append([]byte{}, msg...) // the harness's own scratch copy (not a buffer handed to the implementation)
 	for i := at; i < at+n && i < len(out); i++ {
 		out[i] = 0
 	}
